@@ -1,6 +1,7 @@
 import FluteModel.RecvWhole
 import FluteModel.Props.C04
 import FluteModel.Lemmas.RecvAllObj
+import FluteModel.Lemmas.RecvFdtObj
 /-
   Helper lemmas of the whole-call theorem (Props/C04Whole.lean): the interface functions preserve the object predicate, the
   invariant `WInv` of byte-level histories.
@@ -11,10 +12,7 @@ open Flute Flute.Recv Flute.Recv.AllObj Flute.Props.C04
 /-! ### the interface functions preserve `ObjOK` -/
 
 theorem new_ok (X : Interfaces) (toi m : Nat) (hm : m < 2 ^ 63) : ObjOK X (Full.iface.new toi m) := by
-  simp only [Full.iface]
-  split
-  · trivial
-  · exact ⟨rfl, X.inv_new toi m hm⟩
+  exact ⟨rfl, X.inv_new toi m hm⟩
 
 theorem push_ok (X : Interfaces) (p : Pkt) (hp : X.PktOK (Full.toPkt p)) (o : Full.Any) (ho : ObjOK X o) :
     ObjOK X (Full.iface.push o p).1 := by
@@ -22,17 +20,34 @@ theorem push_ok (X : Interfaces) (p : Pkt) (hp : X.PktOK (Full.toPkt p)) (o : Fu
   | inl m => trivial
   | inr f =>
     obtain ⟨hf, hinv⟩ := ho
-    obtain ⟨st', hst', hinv'⟩ := X.push_total f.st (Full.toPkt p) hinv hp
     simp only [Full.iface, ObjOK]
     unfold Full.push
-    rw [if_neg (by rw [hf]; simp)]
     split
-    · rename_i w hw; rw [hst'] at hw; cases hw
-    · rename_i st2 hst2
-      rw [hst'] at hst2
-      injection hst2 with hst2
-      subst hst2
-      exact ⟨hf, hinv'⟩
+    · -- TOI 0: `attachFdt` with the packet's own entry, then `push`
+      obtain ⟨st1, b, h1, hinv1⟩ := X.attach_total f.st (p.fdtId.getD 0) (Full.fdtEntry0 (Full.toPkt p)) hinv
+        (fun e he => X.entry0_ok _ hp e he)
+      obtain ⟨st', h2, hinv'⟩ := X.push_total st1 (Full.toPkt p) hinv1 hp
+      unfold Full.push0
+      rw [if_neg (by rw [hf]; simp)]
+      split
+      · rename_i w hw; rw [h1] at hw; cases hw
+      · rename_i s1 b' hw
+        rw [h1] at hw; injection hw with hw; injection hw with hw1 _; subst hw1
+        split
+        · rename_i w hw'; rw [h2] at hw'; cases hw'
+        · rename_i s2 hw'
+          rw [h2] at hw'; injection hw' with hw'; subst hw'
+          exact ⟨hf, hinv'⟩
+    · obtain ⟨st', hst', hinv'⟩ := X.push_total f.st (Full.toPkt p) hinv hp
+      unfold Full.pushN
+      rw [if_neg (by rw [hf]; simp)]
+      split
+      · rename_i w hw; rw [hst'] at hw; cases hw
+      · rename_i st2 hst2
+        rw [hst'] at hst2
+        injection hst2 with hst2
+        subst hst2
+        exact ⟨hf, hinv'⟩
 
 theorem attach_ok (X : Interfaces) (o : Full.Any) (id : Nat) (fdt : FdtAbs) (hq : FdtQ X fdt) (ho : ObjOK X o) :
     ObjOK X (Full.iface.attachFdt o id fdt).1 := by
@@ -84,6 +99,8 @@ structure WInv (X : Interfaces) (cfg : Config) (s : State Full.Any) : Prop where
   good : AllFdt Good s
   objs : ObjsAll (ObjOK X) s
   inst : AllFdt (InstQ (FdtQ X)) s
+  /-- the FDT object (TOI 0) inside every FDT-instance receiver is healthy too -/
+  fobjs : AllFdt (FObj (ObjOK X)) s
   cfg : s.cfg = cfg
 
 theorem winv_step (X : Interfaces) (cfg : Config) (hc : cfg.maxCache < 2 ^ 63) (tsi : Nat) (s s' : State Full.Any)
@@ -96,7 +113,7 @@ theorem winv_step (X : Interfaces) (cfg : Config) (hc : cfg.maxCache < 2 ^ 63) (
     | data d' now' ans' =>
       simp only [BOp.abs, Op.data.injEq] at hop
       rw [← hop.2.2]; exact hb
-  refine ⟨step_good Full.iface Full.completeSound s s' _ r evs (bop_abs_ok tsi b hn) h hs.good, ?_, ?_,
+  refine ⟨step_good Full.iface Full.completeSound s s' _ r evs (bop_abs_ok tsi b hn) h hs.good, ?_, ?_, ?_,
     by rw [step_cfg Full.iface s s' _ r evs h]; exact hs.cfg⟩
   · refine step_objsAll Full.iface (ObjOK X) (FdtQ X) (fun o id f hq ho => attach_ok X o id f hq ho) s s' _ r evs
       (fun toi => new_ok X toi _ (by rw [hs.cfg]; exact hc)) ?_ hs.inst hansq h hs.objs
@@ -116,22 +133,42 @@ theorem winv_step (X : Interfaces) (cfg : Config) (hc : cfg.maxCache < 2 ^ 63) (
       exact push_instQ Full.iface (FdtQ X) ans (hansq _ now ans hop) f p now hf
     · intro f f' hf hu inst hi
       rw [updateExpired_inst f f' _ hu] at hi; exact hf inst hi
+  · -- the FDT objects: recv's `step_fobj`
+    refine step_fobj Full.iface (ObjOK X) s s' _ r evs (new_ok X 0 _ (by decide)) ?_ h hs.fobjs
+    intro p now ans hop _ o ho
+    cases b with
+    | cleanup now' stale => simp [BOp.abs] at hop
+    | data d now' ans' => exact push_ok X p (abs_pkt_ok X tsi d now' ans' p now ans hop) o ho
 
 theorem reachable_winv (X : Interfaces) (cfg : Config) (hc : cfg.maxCache < 2 ^ 63) (tsi : Nat) (s : State Full.Any)
     (h : Reachable X tsi cfg s) : WInv X cfg s := by
   induction h with
   | init =>
     exact ⟨by constructor <;> (intro f hf; simp [State.init] at hf), by intro x hx; simp [State.init] at hx,
+      by constructor <;> (intro f hf; simp [State.init] at hf),
       by constructor <;> (intro f hf; simp [State.init] at hf), rfl⟩
   | step s s' b r evs _ hn hb hstep ih => exact winv_step X cfg hc tsi s s' b r evs hn hb hstep ih
 
-theorem hasFault_false (X : Interfaces) (s : State Full.Any) (h : ObjsAll (ObjOK X) s) : hasFault s = false := by
+theorem anyFault_false (X : Interfaces) (o : Full.Any) (h : ObjOK X o) : anyFault o = false := by
+  cases o with
+  | inl m => rfl
+  | inr f => exact h.1
+
+theorem hasFault_false (X : Interfaces) (s : State Full.Any) (h : ObjsAll (ObjOK X) s)
+    (hf : AllFdt (FObj (ObjOK X)) s) : hasFault s = false := by
   unfold hasFault
-  rw [List.any_eq_false]
-  intro x hx
-  have := h x hx
-  cases hx2 : x.2 with
-  | inl m => simp
-  | inr o => rw [hx2] at this; simp [this.1]
+  simp only [Bool.or_eq_false_iff, List.any_eq_false]
+  refine ⟨⟨?_, ?_⟩, ?_⟩
+  · intro x hx
+    simp only [Bool.not_eq_true]
+    exact anyFault_false X x.2 (h x hx)
+  · intro kf hkf
+    cases ho : kf.2.obj with
+    | none => simp
+    | some o => simp only [Bool.not_eq_true]; exact anyFault_false X o (hf.2 kf hkf o ho)
+  · intro f hfm
+    cases ho : f.obj with
+    | none => simp
+    | some o => simp only [Bool.not_eq_true]; exact anyFault_false X o (hf.1 f hfm o ho)
 
 end Flute.Recv.Whole
